@@ -304,6 +304,7 @@ func NewWorld(t testingT, plan *Plan) *World {
 	w.digest = sha256.New()
 	w.schedHash = sha256.New()
 	w.rng = &pcg{s: plan.Tail}
+	setDetRand(plan.Tail, 0)
 	http2.VerifResetPools()
 	http2.VerifYield = nil
 	if plan.Fences || plan.CaptureFences || plan.BodyReadFences || plan.WriteFences {
@@ -825,6 +826,8 @@ func (w *World) release(y *yieldPoint) {
 }
 
 // segmentation: how many of the in-flight bytes one delivery moves.
+const maxDeliver = 65536
+
 func (w *World) deliver(p Pending) {
 	k := p.N
 	if p.N > 1 {
@@ -845,6 +848,12 @@ func (w *World) deliver(p Pending) {
 		case "cuts":
 			k = w.nextCut(p)
 		}
+	}
+	// one delivery hands over at most maxDeliver octets: a controller step stays far
+	// below the runtime's 10 ms time slice, so that the order in which the goroutines woken
+	// by the step run does not depend on time-sliced preemption (DESIGN 15.7)
+	if k > maxDeliver {
+		k = maxDeliver
 	}
 	if p.Dir == "ab" {
 		if c := w.clientByName(p.Pair.Name); c != nil {
@@ -1041,7 +1050,13 @@ func (w *World) Run() {
 	last := "start"
 	for w.Step < budget {
 		synctest.Wait()
+		// every controller step gets its own instant of simulated time: deadlines and timers
+		// armed in different steps then never tie (the runtime orders timers of equal expiry
+		// by the shape of its heap, which also holds real-time timers of the runtime itself)
+		time.Sleep(time.Microsecond)
+		synctest.Wait()
 		w.absorb(last)
+		setDetRand(w.Plan.Tail, w.Step+1)
 		if w.Plan.CancelAtStep > 0 && !w.Cancelled && (w.Step >= w.Plan.CancelAtStep || len(w.enabled()) == 0) {
 			w.Cancelled = true
 			w.CancelledAt = w.Now()
@@ -1102,6 +1117,7 @@ func (w *World) Drain(maxSteps int) {
 		if len(acts) == 0 {
 			return
 		}
+		setDetRand(w.Plan.Tail, w.Step+1)
 		acts[0].do()
 		w.mu.Lock()
 		w.Step++
